@@ -16,18 +16,18 @@ mod alloc;
 mod sweep;
 #[cfg(feature = "std")]
 mod drops;
-#[cfg(feature = "std")]
 mod types;
 #[cfg(all(feature = "alloc", feature = "half"))]
 mod toks;
 #[cfg(all(feature = "alloc", feature = "half"))]
 mod disp;
-#[cfg(feature = "std")]
+#[cfg(all(feature = "std", feature = "half"))]
 mod sinks;
-#[cfg(feature = "full")]
+#[cfg(feature = "bridge")]
 mod sbridge;
-#[cfg(feature = "full")]
+#[cfg(feature = "bridge")]
 mod sfam;
+mod c20;
 
 #[global_allocator]
 static GLOBAL: alloc::Counting = alloc::Counting;
@@ -43,6 +43,11 @@ fn sbridge_matches(_: &Value, _: &Value) -> bool { false }
 fn sbridge_both_matches(obs: &Value, exp: &Value) -> bool { sbridge::both_matches(obs, exp) }
 #[cfg(not(feature = "full"))]
 fn sbridge_both_matches(_: &Value, _: &Value) -> bool { false }
+
+#[cfg(feature = "std")]
+fn typed_matches(obs: &Value, exp: &Value) -> bool { types::matches(obs, exp) }
+#[cfg(not(feature = "std"))]
+fn typed_matches(_: &Value, _: &Value) -> bool { false }
 
 fn silence_panics() {
     std::panic::set_hook(Box::new(|_| {}));
@@ -74,7 +79,7 @@ fn cmd_cases(args: &[String]) -> i32 {
         }
         #[cfg(all(feature = "alloc", feature = "half"))]
         let ok = if c["fam"] == "display" { disp::matches(&obs, &c["exp"]) }
-                 else if c["fam"] == "typed" { types::matches(&obs, &c["exp"]) }
+                 else if c["fam"] == "typed" { typed_matches(&obs, &c["exp"]) }
                  else if c["fam"] == "serde" { sbridge_matches(&obs, &c["exp"]) }
                  else if c["fam"] == "both" { sbridge_both_matches(&obs, &c["exp"]) }
                  else if c["fam"] == "tok" { toks::matches(c["name"].as_str().unwrap(), &obs, &c["exp"]) }
@@ -109,6 +114,9 @@ fn main() {
         Some("gen") => gen::cmd_gen(&args[1..]),
         #[cfg(feature = "full")]
         Some("sweep") => sweep::cmd_sweep(&args[1..]),
+        Some("c20run") => c20::cmd_run(&args[1..]),
+        #[cfg(feature = "full")]
+        Some("c20corpus") => c20::cmd_corpus(&args[1..]),
         _ => { eprintln!("usage: vh cases|one|gen ..."); 2 }
     };
     std::process::exit(code)
